@@ -2,7 +2,7 @@
 # refresh_shared.sh <letter>: copy the integrator-owned shared files (and every OTHER property's merged files) from /verif into /tmp/b_<letter>/verif
 # without touching the files the builder owns (its own properties' files are newer in its copy and are skipped by --update on mtime... we use an explicit exclude list instead)
 X="$1"; D=/tmp/b_$X/verif
-declare -A OWN=( [K]="C18|c18|PyFuns|DualHelpers|DualCoverage|InferSize|py2lean|gen_tables|Compile.lean|Key.lean|SliceSpec" [A]="C02|c02|C17|c17|CtxTable" [B]="C03|c03" [C]="C08|c08" [D]="C04|c04|C01|c01" [E]="C05|c05|C06|c06|LockTable|CacheTable" [F]="C09|c09|C20|c20" [G]="C12|c12|C11|c11|C10|c10|Dtypes" [H]="C13|c13|C14|c14" [I]="C15|c15|C16|c16|TcTables" [J]="C07|c07|C19|c19" )
+declare -A OWN=( [K]="C18|c18|PyFuns|DualHelpers|DualCoverage|InferSize|CheckKeys|ParseTo|py2lean|gen_tables|Compile.lean|Key.lean|SliceSpec" [A]="C02|c02|C17|c17|CtxTable" [B]="C03|c03" [C]="C08|c08" [D]="C04|c04|C01|c01" [E]="C05|c05|C06|c06|LockTable|CacheTable" [F]="C09|c09|C20|c20" [G]="C12|c12|C11|c11|C10|c10|Dtypes" [H]="C13|c13|C14|c14" [I]="C15|c15|C16|c16|TcTables" [J]="C07|c07|C19|c19" )
 cd /verif
-git ls-files | grep -v -E "^(evidence/|seeded/|DESIGN.md|MANIFEST.json)" | grep -v -E "${OWN[$X]}" | while read f; do mkdir -p "$D/$(dirname "$f")"; cp "$f" "$D/$f"; done
+git ls-files | grep -v -E "^(evidence/|seeded/|DESIGN.md|MANIFEST.json)" | grep -v -E "${OWN[$X]}" | cat - <(git ls-files | grep -E "^lean/(DriverC[0-9]+\.lean|lakefile\.toml)$") | sort -u | while read f; do mkdir -p "$D/$(dirname "$f")"; cp "$f" "$D/$f"; done
 echo "refreshed $D (kept your own files: ${OWN[$X]}); known_findings.json was overwritten with the integrator's — re-add your pending entries"
